@@ -570,7 +570,7 @@ class C04(Prop):
         def add(c, pc=0.34):
             c = dict(c, kind="d1")
             cases.append(dict(c, runner="I"))
-            if not quick or rng.random() < pc:
+            if rng.random() < (pc if quick else max(pc, 0.4)):
                 cases.append(dict(c, runner="C"))
 
         A = cel_names if not quick else reps
@@ -614,7 +614,7 @@ class C04(Prop):
                 add(dict(shape="call", ops=[a], x=f), 0.25)
                 if f not in NOT_METHODS:
                     add(dict(shape="mcall", ops=[a], x=f), 0.25)
-            second = few if quick else reps
+            second = few if quick else few + rng.sample(reps, 8)
             firsts = rng.sample(reps, 8) if quick else reps
             for a in firsts:
                 for b in second:
@@ -630,7 +630,7 @@ class C04(Prop):
             add(dict(shape="lit", ops=[], i=i), 1.0)
 
         # random nested ill-typed expressions ----------------------------------------------------------------
-        n_expr = 1000 if quick else 40000
+        n_expr = 1000 if quick else 20000
         for i in range(n_expr):
             g = ExprGen(rng, R, cel_names + [p.name for p in M.pool() if not p.is_cel and p.cel])
             src = g.expr(rng.randint(1, 4))
